@@ -127,6 +127,11 @@ func drawOp(c *Ctx, l *core.Lane, failing bool) *opCase {
 	}
 	if failing && l.Chance(1, 4) {
 		o.trunc = biasedK(l, len(o.data))
+		// half of the truncations end the stream exactly at (or one byte around) a structure
+		// boundary of the layout map: the end of a box, segment, chunk or value
+		if b := boundsFromMap(o.fmap, len(o.data)); len(b) > 0 && l.Bool() {
+			o.trunc = b[l.Intn(len(b))]
+		}
 	}
 	o.spec = drawEnvSpec(l, o.e)
 	c.Inc(fmt.Sprintf("input-class:%d", class))
